@@ -13,4 +13,5 @@ Separate Extraction
   Model.w_create Model.w_move_assign Model.w_copy_assign Model.w_swap
   Model.v_create Model.v_move_assign Model.v_copy_assign Model.v_swap
   Model.cc_find Model.w_assign_ilist
-  Bodies.s_copy Bodies.s_move_ctor Bodies.s_swap Bodies.abs Bodies.sb_items.
+  Bodies.s_copy Bodies.s_move_ctor Bodies.s_swap Bodies.abs Bodies.sb_items
+  Bodies.s_elementwise_body Bodies.s_copy_table Bodies.idx_shape Bodies.tree_shape.
